@@ -2,75 +2,113 @@
 (* Trace validation for C07 at the keyset level: streamingaead.New(handle) over      *)
 (* several real keys; every recorded Read of the wrapped primitive's reader          *)
 (* (decrypt_reader.go) is matched against KeysetReader (sys/).                       *)
-(* Events: reset [cands, writer], Stream [N, m, srcFail, len], Read.                 *)
+(* Events: reset [cands, writer], Stream [N, m, srcFail, len], Read, end.            *)
 (* Returned bytes are logged by their position in the plaintext (off; -1 = not a     *)
-(* piece of the plaintext).  Mismatch classes as in Trace_Streaming.                 *)
+(* piece of the plaintext).  Two judgements per event and the mismatch classes as in *)
+(* Trace_Streaming: the property on the observed behaviour (obs), and conformance    *)
+(* with the model's action ([model] mismatches are reported at the `end` event).     *)
 EXTENDS KeysetReader, Json, IOUtils, TLC
 
 Trace == ndJsonDeserialize(IOEnv.VERIF_TRACE)
 Start == IF "VERIF_START" \in DOMAIN IOEnv THEN atoi(IOEnv.VERIF_START) ELSE 1
 
-VARIABLES l, bad
+VARIABLES l, bad,
+          obs     \* observed in this scenario: [got, out, srcErr, interfered, note]
+
+NoObs == [got |-> 0, out |-> "none", srcErr |-> FALSE, interfered |-> FALSE, note |-> <<>>]
+Mis(cls, msg, exp) == <<cls, msg, exp>>
+ToBad(c) == IF c = <<>> THEN <<>> ELSE <<c[1] \o " " \o c[2], c[3]>>
 
 ToCands(js) == [k \in 1..Len(js) |-> [P |-> js[k].P, T |-> js[k].T, Off |-> js[k].Off, Hdr |-> js[k].hdr, mk |-> k]]
 ToManips(js) == [x \in 1..Len(js) |-> Manip(js[x].kind, js[x].at, js[x].n, js[x].i, js[x].j, js[x].perm)]
 Script(e)    == Follow([x \in 1..Len(e.calls) |-> [n |-> e.calls[x].n, err |-> e.calls[x].err]])
+SrcErrSeen(calls) == \E x \in 1..Len(calls) : calls[x].err = "ERR"
 
 Guard(e) ==
   CASE e.ev = "Stream" -> outcome = "start"
-    [] e.ev = "Read"   -> outcome # "start" /\ KeysetRead(cands, kr, src, raad, e.n, Script(e)) # {}
+    [] e.ev = "Read"   -> outcome \notin {"start", "idle"} /\ KeysetRead(cands, kr, src, raad, e.n, Script(e)) # {}
     [] OTHER -> FALSE
 
+(***** (1) the property on the observed behaviour *****)
+Prop(e) ==
+  IF e.ev # "Read" THEN <<>>
+  ELSE IF e.panic THEN Mis("[property]", "Read panicked", "no panic")
+  ELSE IF obs.out # "none" THEN <<>>
+  ELSE LET interfered == obs.interfered \/ obs.srcErr \/ SrcErrSeen(e.calls) IN
+    IF e.err = "EOF" /\ interfered
+      THEN Mis("[property]", "clean end of stream although no key of the keyset made this ciphertext, it was manipulated, or the source failed", "ERR")
+    ELSE IF e.err = "EOF" /\ obs.got # plain
+      THEN Mis("[property]", "end of stream before the whole plaintext was returned", ToString(plain))
+    ELSE IF e.err = "ERR" /\ ~interfered
+      THEN Mis("[property]", "Read fails although a key of the keyset made this ciphertext, it is untouched and the source did not fail", "nil")
+    ELSE IF e.err = "nil" /\ e.ret > 0 /\ ~(e.off = obs.got /\ e.off + e.ret <= plain)
+      THEN Mis("[property]", "bytes returned before any error are not the plaintext", ToString(obs.got))
+    ELSE <<>>
+
+Observe(e, note) ==
+  [got        |-> IF e.ev = "Read" /\ obs.out = "none" /\ e.err = "nil" THEN obs.got + e.ret ELSE obs.got,
+   out        |-> IF e.ev = "Read" /\ obs.out = "none" /\ e.err # "nil" THEN e.err ELSE obs.out,
+   srcErr     |-> obs.srcErr \/ (e.ev = "Read" /\ SrcErrSeen(e.calls)),
+   interfered |-> obs.interfered,
+   note       |-> note]
+
+(***** (2) conformance with the model *****)
 Clean == outcome = "none" /\ src.failFrom = 0 /\ writer # 0 /\ ~KEffective
 Data(e) == IF e.ret = 0 THEN <<>> ELSE IF e.off < 0 THEN Junk(0, e.ret) ELSE <<Run(PtSrc, e.off, e.off + e.ret)>>
 Wants(log) == [x \in 1..Len(log) |-> log[x].want]
 EvWants(e) == [x \in 1..Len(e.calls) |-> e.calls[x].want]
 
-CmpRead(e, r2, gotPre) ==
-  LET cls == IF Clean THEN "[property] " ELSE "[model] " IN
-  IF e.panic THEN <<"[property] Read panicked", "no panic">>
-  ELSE IF outcome # "none" THEN <<>>                       \* after the first non-nil result: not judged
+CmpRead(e, r2) ==
+  LET cls == IF Clean THEN "[property]" ELSE "[model]" IN
+  IF outcome # "none" THEN <<>>                       \* after the first non-nil result: not judged
   ELSE IF r2.err # e.err \/ r2.ret # e.ret \/ Data(e) # r2.data
-    THEN IF e.err = "EOF" /\ ~Clean
-           THEN <<"[property] clean end of stream although no key of the keyset made this ciphertext, it was manipulated, or the source failed", r2.err>>
-         ELSE IF e.err = "nil" /\ e.ret > 0 /\ ~(e.off = RLen(gotPre) /\ e.off + e.ret <= plain)
-           THEN <<"[property] bytes returned before any error are not the plaintext", ToString(<<r2.ret, r2.err>>)>>
-         ELSE <<cls \o "Read result (n, err, data) differs from the specification", ToString(<<r2.ret, r2.err>>)>>
+    THEN Mis(cls, "Read result (n, err, data) differs from the specification", ToString(<<r2.ret, r2.err>>))
   ELSE IF EvWants(e) # Wants(r2.log)
-    THEN <<"[model] sizes requested from the underlying reader differ from the specification", ToString(Wants(r2.log))>>
+    THEN Mis("[model]", "sizes requested from the underlying reader differ from the specification", ToString(Wants(r2.log)))
   ELSE <<>>
 
 TInit ==
-  /\ l = Start /\ bad = <<>>
+  /\ l = Start /\ bad = <<>> /\ obs = NoObs
   /\ cands = <<>> /\ writer = 0 /\ plain = 0 /\ manip = <<>> /\ raad = 0 /\ src = NewSource(<<>>, 0, "follow") /\ kr = NewKR
   /\ got = <<>> /\ outcome = "idle" /\ res = KRes("Init", 0, 0, "nil", <<>>, <<>>)
 
 Reset(e) ==
-  /\ bad' = <<>>
+  /\ bad' = <<>> /\ obs' = NoObs
   /\ cands' = ToCands(e.cands) /\ writer' = e.writer /\ plain' = 0 /\ manip' = <<>> /\ raad' = 0
   /\ src' = NewSource(<<>>, 0, "follow") /\ kr' = NewKR
   /\ got' = <<>> /\ outcome' = "start" /\ res' = KRes("Init", 0, 0, "nil", <<>>, <<>>)
+
+\* the Stream event: the ciphertext of e.N bytes made with candidate `writer`, manipulated as logged
+StreamStep(e) ==
+  LET ms == ToManips(e.m)
+      au == Canon(WriterParams, Session(WriterParams, 0), PlainText(e.N))
+  IN /\ plain' = e.N /\ manip' = ms /\ raad' = IF HasAad(ms) THEN 1 ELSE 0
+     /\ src' = NewSource(ApplyAll(WriterParams, ms, au), e.srcFail, "follow")
+     /\ outcome' = "none" /\ res' = KRes("Tamper", 0, 0, "nil", <<>>, <<>>)
+     /\ UNCHANGED <<cands, writer, kr, got>>
+     /\ bad' = IF RLen(src'.rest) # e.len
+                 THEN <<"[property] length of the ciphertext differs from the documented format", ToString(RLen(src'.rest))>> ELSE <<>>
+     /\ obs' = [obs EXCEPT !.interfered = writer = 0 \/ HasAad(ms) \/ ApplyAll(WriterParams, ms, au) # au]
 
 TNext ==
   /\ l <= Len(Trace)
   /\ l' = l + 1
   /\ LET e == Trace[l] IN
        IF e.ev = "reset" THEN Reset(e)
-       ELSE IF e.ev = "Stream" /\ Guard(e)
-         THEN /\ plain' = e.N
-              /\ manip' = ToManips(e.m) /\ raad' = IF HasAad(ToManips(e.m)) THEN 1 ELSE 0
-              /\ src' = NewSource(ApplyAll(WriterParams, ToManips(e.m), Canon(WriterParams, Session(WriterParams, 0), PlainText(e.N))),
-                                  e.srcFail, "follow")
-              /\ outcome' = "none" /\ res' = KRes("Tamper", 0, 0, "nil", <<>>, <<>>)
-              /\ UNCHANGED <<cands, writer, kr, got>>
-              /\ bad' = IF RLen(src'.rest) # e.len THEN <<"[property] length of the ciphertext differs from the documented format", ToString(RLen(src'.rest))>>
-                        ELSE <<>>
-       ELSE IF ~Guard(e)
-         THEN /\ UNCHANGED kvars
-              /\ bad' = IF e.ev = "Read" /\ outcome \notin {"none", "start", "idle"} THEN <<>>
-                        ELSE <<"[model] call or its underlying calls impossible in the specification (guard false)", e.ev>>
-         ELSE /\ KRead(e.n, Script(e))
-              /\ bad' = CmpRead(e, res', got)
+       ELSE IF e.ev = "end"
+         THEN /\ UNCHANGED kvars /\ bad' = ToBad(obs.note) /\ obs' = [obs EXCEPT !.note = <<>>]
+       ELSE IF e.ev = "Stream" /\ Guard(e) THEN StreamStep(e)
+       ELSE LET g == Guard(e)
+                p == Prop(e)
+                c == IF p # <<>> THEN p
+                     ELSE IF obs.note # <<>> THEN <<>>
+                     ELSE IF ~g THEN (IF e.ev = "Read" /\ outcome \notin {"none", "start", "idle"} THEN <<>>
+                                      ELSE Mis("[model]", "call or its underlying calls impossible in the specification (guard false)", e.ev))
+                     ELSE CmpRead(e, res')
+                deferred == c # <<>> /\ c[1] = "[model]"
+            IN /\ (IF g THEN KRead(e.n, Script(e)) ELSE UNCHANGED kvars)
+               /\ bad' = IF deferred THEN <<>> ELSE ToBad(c)
+               /\ obs' = Observe(e, IF deferred THEN c ELSE obs.note)
 
 Conforms == bad = <<>>
 ModelInv == outcome = "idle" \/ (KRoundTrip /\ KTamperDetected /\ KFaultSurfaces)
